@@ -5,8 +5,12 @@ import OFCore.Heap
 heap run <sys> <spec> <pre> <trace> <ops>
     -> <alias graph>|<step>|<step>|…        or ERR (the model could not build / clone)
 sys   = <var>;<var>;…          var  = <entity>:<unit>:<default>:<formula>
-                               formula = - | <const>{+<coef>*<dep>.<via>.<pt>}   via = s|m|p   pt = s|l
-spec  = <persons>/<groups>/<mem>   groups = - | <entity>:<count>:<g.g.g…>,…   (g = group index of each person)
+                               formula = - | <const>{+<coef>*<dep>.<via>.<pt>}   pt = s|l
+                               via = s | m | p | mr<role> | nb<role> | hr<g>_<role>      role = <flat>{_<flat>}
+                               (role-filtered sum of the members, nb_persons(role), has_role(role of entity g);
+                                a role is the set of flattened roles satisfying it: 0_1 | 0 | 1 | 2 | 3)
+spec  = <persons>/<groups>/<mem>   groups = - | <entity>:<count>:<g.g.g…>:<roles>,…   (g = group index of each person,
+                               roles = - (never assigned) | <flat>.<flat>… (flattened role of each person))
                                mem = - | d | d<v>.<v>…   (MemoryConfig(max_memory_occupation=0, priority_variables))
 pre   = - | <op>;<op>…         operations on the original before `clone(trace=<trace>)`
 ops   = - | <side><op>;…       side = o | c
@@ -44,13 +48,30 @@ def hShowPeriod (p : Period) : String :=
 def parseInts? (s : String) : Option (List Int) := hAllSome ((splitList s ",").map String.toInt?)
 def parseNatsDot? (s : String) : Option (List Nat) := hAllSome ((splitList s ".").map String.toNat?)
 
+def parseRole? (s : String) : Option (List Nat) := do
+  let r ← hAllSome ((s.splitOn "_").map String.toNat?)
+  if stdRoles.contains r then some r else none
+
+def parseVia? (via : String) : Option Via :=
+  if via = "s" then some Via.same else if via = "m" then some Via.members
+  else if via = "p" then some Via.project
+  else if via.startsWith "mr" then (parseRole? (via.drop 2).toString).map Via.membersRole
+  else if via.startsWith "nb" then (parseRole? (via.drop 2).toString).map Via.nbPersons
+  else if via.startsWith "hr" then
+    match ((via.drop 2).toString.splitOn "_") with
+    | g :: rest => do
+      let g ← g.toNat?
+      let r ← parseRole? ("_".intercalate rest)
+      pure (Via.hasRole g r)
+    | [] => none
+  else none
+
 def parseTerm? (s : String) : Option Term :=
   match s.splitOn "*" with
   | [c, rest] =>
     match rest.splitOn "." with
     | [d, via, pt] => do
-      let via ← (if via = "s" then some Via.same else if via = "m" then some Via.members
-                 else if via = "p" then some Via.project else none)
+      let via ← parseVia? via
       let pt ← (if pt = "s" then some PT.same else if pt = "l" then some PT.lastMonth else none)
       pure ⟨← c.toInt?, ← d.toNat?, via, pt⟩
     | _ => none
@@ -74,7 +95,9 @@ def parseSys? (s : String) : Option Sys := hAllSome ((splitList s ";").map parse
 
 def parseGroup? (s : String) : Option GroupSpec :=
   match s.splitOn ":" with
-  | [e, n, ms] => do pure ⟨← e.toNat?, ← n.toNat?, ← parseNatsDot? ms⟩
+  | [e, n, ms, rs] => do
+    let roles ← (if rs = "-" then some none else (parseNatsDot? rs).map some)
+    pure ⟨← e.toNat?, ← n.toNat?, ← parseNatsDot? ms, roles⟩
   | _ => none
 
 def parseMem? (s : String) : Option (Option MemConfig) :=
@@ -125,6 +148,8 @@ def showHolderObs (o : HolderObs) : String :=
 def showPopObs (o : PopObs) : String :=
   let hs := (o.holders.mergeSort (fun a b => decide (a.var ≤ b.var))).map showHolderObs
   s!"e{o.entity}:{showB o.ownSim}{showB o.ownMembers}:n{o.count}:" ++ ".".intercalate (o.membersEntityId.map toString)
+    ++ (if o.entity = 0 then "" else
+        ":r" ++ ".".intercalate (o.roles.map toString) ++ ":c" ++ "/".intercalate (o.roleCounts.map showVec))
     ++ ":[" ++ " ".intercalate hs ++ "]"
 
 def showObs (o : Obs) : String :=
@@ -227,8 +252,16 @@ one group index below the group count per person -/
 def wellFormed (sys : Sys) (spec : SimSpec) : Bool :=
   let ks := spec.groups.map (fun g => g.entity)
   ks.all (fun k => k ≠ 0) && ks.Nodup
-  && spec.groups.all (fun g => g.membersEntityId.length = spec.persons && g.membersEntityId.all (fun i => i < g.count))
-  && sys.all (fun d => d.entity = 0 || ks.contains d.entity)
+  && spec.groups.all (fun g => g.membersEntityId.length = spec.persons && g.membersEntityId.all (fun i => i < g.count)
+      && (match g.roles with | none => true | some rs => rs.length = spec.persons && rs.all (fun r => r < 4)))
+  && sys.all (fun d => (d.entity = 0 || ks.contains d.entity) &&
+      (match d.formula with
+       | none => true
+       | some ct => ct.2.all (fun t => match t.via with
+          | .hasRole g _ => ks.contains g && d.entity = 0
+          | .membersRole _ => d.entity ≠ 0
+          | .nbPersons _ => d.entity ≠ 0
+          | .same => true | .members => true | .project => true)))
 
 def handleHeap (args : List String) : String :=
   match args with
